@@ -9,6 +9,7 @@ use std::time::{Duration, Instant};
 
 pub fn run(ctx: &mut Ctx) {
     run_recv(ctx);
+    run_idle(ctx);
     run_spawn(ctx);
     let ips = [0u32, 1, 0x7f000001, 0x0a000001, 0xc0a80001, 0x01020304, 0xffffffff, 0x80000000, 0x00ff00ff];
     let ports = [0u16, 1, 80, 3000, 0x1234, 0xff00, 0x00ff, 65535];
@@ -276,5 +277,71 @@ pub fn run_recv(ctx: &mut Ctx) {
         }
         let ok = matches!(got, Some((l, s, src)) if l as usize == *len && s == want_sum && src == SocketAddr::V4(actor_addr));
         ctx.check(&case, "spawn-on-msg-not-the-datagram-sent", &["SPAWN.event-loop (not under contract)"], ok, format!("{:?}", got), format!("echo of length {} checksum {} from {}", len, want_sum, actor_addr));
+    }
+}
+
+
+// ---- an empty datagram is still a datagram; a timer armed by a message handler after an idle period ----
+struct Idle;
+impl Actor for Idle {
+    type Msg = Vec<u8>;
+    type State = u64;
+    type Timer = ();
+    type Random = ();
+    fn on_start(&self, _id: Id, _o: &mut Out<Self>) -> u64 { 0 }
+    fn on_msg(&self, _id: Id, state: &mut std::borrow::Cow<u64>, src: Id, msg: Vec<u8>, o: &mut Out<Self>) {
+        match msg.first() {
+            // ping: echoed (lets the oracle know the runtime is up)
+            Some(0) => o.send(src, vec![0]),
+            // three sends, the middle one serializes to ZERO bytes
+            Some(3) => { o.send(src, vec![1]); o.send(src, vec![]); o.send(src, vec![2]); }
+            // arm a timer from a message handler; the timeout answers the requester
+            Some(9) => { *state.to_mut() = usize::from(src) as u64; o.set_timer((), ms(400)..ms(400)); }
+            _ => {}
+        }
+    }
+    fn on_timeout(&self, _id: Id, state: &mut std::borrow::Cow<u64>, _t: &(), o: &mut Out<Self>) {
+        o.send(Id::from(**state as usize), vec![7]);
+    }
+}
+
+pub fn run_idle(ctx: &mut Ctx) {
+    let cases = ["spawn.send-empty", "spawn.timer-after-idle"];
+    if !cases.iter().any(|c| ctx.want(c)) { return; }
+    let Some((me, _)) = bind_in(43100) else { eprintln!("c17: no UDP port; skipping idle cases"); return };
+    let Some((probe, actor_port)) = bind_in(43140) else { return };
+    drop(probe);
+    let actor_addr = SocketAddrV4::new(Ipv4Addr::LOCALHOST, actor_port);
+    std::thread::spawn(move || {
+        let _ = spawn::<Idle, String>(raw_ser, raw_de, vec![(Id::from(actor_addr), Idle)]);
+    });
+    // wait until the runtime answers a ping
+    let deadline = Instant::now() + ms(3000);
+    let mut up = false;
+    while Instant::now() < deadline && !up {
+        let _ = me.send_to(&[0u8], actor_addr);
+        if let Some((b, _, _)) = recv_before(&me, Instant::now() + ms(100)) { up = b == vec![0u8]; }
+    }
+    // drain late echoes of the pings
+    while recv_before(&me, Instant::now() + ms(150)).is_some() {}
+    if !up { eprintln!("c17: the Idle actor did not come up; skipping idle cases"); return; }
+    if ctx.want("spawn.send-empty") {
+        let _ = me.send_to(&[3u8], actor_addr);
+        let mut got: Vec<Vec<u8>> = Vec::new();
+        let dl = Instant::now() + ms(6000);
+        while got.len() < 3 { match recv_before(&me, dl) { Some((b, _, _)) => got.push(b), None => break } }
+        ctx.check("spawn.send-empty", "spawn-send-not-one-datagram-each", &["SPAWN.on_command.ensures.send"], got == vec![vec![1u8], vec![], vec![2u8]],
+            format!("{:?}", got), "three datagrams [1], [] (zero bytes), [2]".into());
+    }
+    if ctx.want("spawn.timer-after-idle") {
+        // the actor has been blocked in its receive for a while when the arming request arrives
+        std::thread::sleep(ms(700));
+        let t0 = Instant::now();
+        let _ = me.send_to(&[9u8], actor_addr);
+        let got = recv_before(&me, t0 + ms(10000));
+        let after = got.as_ref().map(|(_, _, t)| t.duration_since(t0).as_millis());
+        let ok = matches!(&got, Some((b, _, _)) if *b == vec![7u8]) && after.map(|a| a >= 395).unwrap_or(false);
+        ctx.check("spawn.timer-after-idle", "spawn-timer-fires-before-its-lower-bound", &["SPAWN.on_command.ensures.set-timer"], ok,
+            format!("timeout answer {:?} ms after the request to arm a 400 ms timer", after), "no earlier than 400 ms after the arming (sent at t0, so >= ~400 ms after t0)".into());
     }
 }
